@@ -200,6 +200,22 @@ CHECKS = {
              'fully-written-claim-counts-rewritten-pixels. ' + TB,
         technique='Lean 4 proof (invariants by induction over op lists) + op-sequence line-protocol correspondence + direct property '
                   'oracle on observed object / file state'),
+    'C05': dict(
+        text='Lean 4 theorems about a table-driven model of Serializable.to_node/from_node/to_dict/from_dict/copy: for every well-formed '
+             'set of class tables, every class, nesting depth, subset of present fields and collection length, parse(serialize v) = v, '
+             're-serialisation is identical, from_dict(to_dict v) = v and copy v = v, with the primitive text codecs as an abstract '
+             'parameter under an explicit round-trip hypothesis. The tables of all 370 metadata classes (300 table-driven, 70 with '
+             'hand-written logic as black boxes) are regenerated by reflection on every run and their well-formedness is re-decided by '
+             'the Lean kernel; every generated instance is serialised by the Lean model and compared node by node with the XML sarpy '
+             'wrote, and an oracle checks field-by-field, bit-exact round trips through XML, dict and copy on the implementation for '
+             'every class.',
+        design='DESIGN.md 6/C05',
+        note='proof, partial: generic codec over arbitrary well-formed tables (XML, dict, copy) proved. Correspondence only: float/int/'
+             'date text conversion (bit-exact sampling), the 70 classes with hand-written or property-backed logic, constructor side '
+             'effects, canonicalising descriptors (tolerance). Empty collection = absent collection on the XML path. Two open known '
+             'findings (string edge whitespace, empty string in collections). ' + TB,
+        technique='Lean 4 proof (induction on depth, list lemmas) + reflection translator with kernel-decided well-formedness + '
+                  'node-by-node model/implementation differential + bit-exact round-trip oracle'),
 }
 
 
